@@ -116,6 +116,60 @@ def run_generator(model, workdir, timeout=1800, workers=8, cfg=None):
                             gen_wall_s=round(time.time() - t0, 1)), header
 
 
+def run_case_generator(model, workdir, cfg=None, timeout=1800):
+    """TLC enumerates expression-lab cases (ASSUME PrintT per case); returns (cases_path, stats)."""
+    stage_spec(workdir)
+    cfg = cfg or model
+    shutil.copyfile(os.path.join(MODELS, cfg + ".cfg"), os.path.join(workdir, cfg + ".cfg"))
+    t0 = time.time()
+    rc, out = tlc(workdir, model, cfg + ".cfg", workers=1, timeout=timeout, xmx="8g")
+    if "Model checking completed. No error has been found." not in out:
+        tail = "\n".join(l for l in out.splitlines() if not l.startswith('"{'))[-4000:]
+        raise Inconclusive("case generator %s did not complete cleanly:\n%s" % (model, tail))
+    path = os.path.join(workdir, cfg + ".cases.ndjson")
+    n = 0
+    declared = None
+    with open(path, "w") as f:
+        for line in out.splitlines():
+            if not line.startswith('"{'):
+                continue
+            d = json.loads(json.loads(line))
+            if d.get("kind") == "count":
+                declared = d["n"]
+                continue
+            f.write(json.dumps(d) + "\n")
+            n += 1
+    if declared is not None and declared != n:
+        raise Inconclusive("case generator %s: %d cases declared, %d printed" % (model, declared, n))
+    return path, dict(model=cfg, cases=n, gen_wall_s=round(time.time() - t0, 1))
+
+
+def run_lab(cases_path, workdir, chunks):
+    """Run the expression lab over the cases in parallel worker groups; returns trace chunk paths."""
+    lines = open(cases_path).read().splitlines()
+    paths = []
+    procs = []
+    for i in range(chunks):
+        part = lines[i::chunks]
+        if not part:
+            continue
+        cp = os.path.join(workdir, "cases.%d.ndjson" % i)
+        tp = os.path.join(workdir, "lab.%d.ndjson" % i)
+        with open(cp, "w") as f:
+            f.write("\n".join(part) + "\n")
+        procs.append((subprocess.Popen([os.path.join(BUILD, "exprlab"), "-cases", cp, "-out", tp], stdout=subprocess.PIPE,
+                                       stderr=subprocess.PIPE, text=True), tp, len(part)))
+    for pr, tp, n in procs:
+        out, err = pr.communicate(timeout=3600)
+        if pr.returncode != 0:
+            raise Inconclusive("expression lab failed: " + err[-2000:])
+        got = sum(1 for _ in open(tp))
+        if got != n:
+            raise Inconclusive("expression lab lost cases: %d of %d in %s" % (got, n, tp))
+        paths.append(tp)
+    return paths
+
+
 def run_replay(edges_path, workdir, chunks, extra=()):
     prefix = os.path.join(workdir, "trace")
     stats = os.path.join(workdir, "replay-stats.json")
@@ -185,7 +239,7 @@ def extract_trace(trace_path, l):
                 ops.append(d)
             if i == l:
                 break
-    bare = [{k: v for k, v in d.items() if k not in ("r1", "r2", "o1", "o2")} for d in ops]
+    bare = [{k: v for k, v in d.items() if k not in ("r1", "r2", "o1", "o2", "r")} for d in ops]
     return bare, ops[-1] if ops else None
 
 
@@ -199,6 +253,11 @@ def save_replay(pid, bare_ops, info):
     with open(path + ".info.json", "w") as f:
         json.dump(info, f, indent=1, sort_keys=True)
     return path
+
+
+def describe_lab(d):
+    return "%s %s  -> %s" % (d["op"], json.dumps({k: d[k] for k in ("ast", "item", "names", "values") if k in d}, sort_keys=True)[:600],
+                              {k: v["o"] for k, v in d.get("r", {}).items()})
 
 
 def describe_op(o):
@@ -219,6 +278,8 @@ def describe_op(o):
         if not isinstance(it, dict):
             return "{}"
         return "{" + ",".join("%s:%s" % (k, val(v)) for k, v in sorted(it.items())) + "}"
+    if o.get("op") in ("Match", "Apply"):
+        return describe_lab(o)
     s = o.get("op", "?")
     for k in ("c", "t"):
         if k in o:
